@@ -1,1 +1,6 @@
-pub fn hi() {}
+pub mod capture;
+pub mod dec;
+pub mod engine;
+pub mod gen;
+pub mod props;
+pub mod tape;
